@@ -768,12 +768,12 @@ def apply_to_model(sess):
             toks = tokens_from_section(world.isa, cap["sections"][cap["text"]], f"s{sess.index}o{oi}i{c['inv']}", md)
             for name, sec in cap["sections"].items():
                 if name != cap["text"] and sec["data"]:
-                    model.add_unit(name, tokens_from_section(world.isa, sec, f"s{sess.index}o{oi}x{name}", md))
+                    model.add_unit(name, tokens_from_section(world.isa, sec, f"s{sess.index}o{oi}x{name}", md), name=f"n{sess.index}o{oi}{name}")
         for t in toks:
             if t.kind == "insn":
                 t.func = fid
         head = [Tok("label", "L:" + op["name"], name=op["name"], origin=("insfn", oi)), Tok("entry", ("entry", "new", oi), func=fid)]
-        model.add_unit(".text", head + toks)
+        model.add_unit(".text", head + toks, name=f"n{sess.index}o{oi}fn")
     for _, off, rid, oi, key, length, rcap in mods:
         op = ops[oi]
         k = op["k"]
@@ -807,7 +807,7 @@ def apply_to_model(sess):
         for name, sec in other.items():
             if not sec["data"]:
                 continue
-            model.add_unit(name, tokens_from_section(world.isa, sec, f"s{sess.index}o{oi}x{name}", md))
+            model.add_unit(name, tokens_from_section(world.isa, sec, f"s{sess.index}o{oi}x{name}", md), name=f"n{sess.index}o{oi}i{c['inv']}{name}")
 
 
 def _unit_rank(model, sp):
